@@ -109,7 +109,8 @@ def step (st : St) (line : String) : St × String :=
       let absS := (List.range (maxT + 1)).map (fun t => s!"{t}:{showTaskSt (a'.task t)}")
       ({ st with srv := s', abs := a', maxT := maxT },
        s!"{outcome} ; wf={if w then 1 else 0} ; out={" ".intercalate cli} ; down={" ".intercalate down} ; " ++
-       s!"spec={" ".intercalate (rs.map showReply)} ; {showSrv s'} ; abs={" ".intercalate absS}")
+       s!"spec={" ".intercalate (rs.map showReply)} ; {showSrv s'} ; abs={" ".intercalate absS} ; " ++
+       s!"written={" ".intercalate ((writtenReplies s'.out).map showReply)}")
 
 /-- second protocol on the same machine: `bubble …` and `recv …` lines are stateless. -/
 def parseCMsgs : List String → Option (List CMsg)
@@ -132,11 +133,32 @@ def showCOut : COut → String
 def showPreOut : PreOut → String
   | .clean => "clean"
   | .raised m => s!"raised {m}"
-  | .attributeError => "attributeError"
   | .unexpected => "unexpected"
 
 def stepAll (st : St) (line : String) : St × String :=
   match (line.splitOn " ").filter (· ≠ "") with
+  | "sendrecv" :: ms =>
+    -- `sendrecv <pending…> / <arriving…>`
+    (st, match ms.splitOn "/" with
+      | [p, a] =>
+        (match parseCMsgs p, parseCMsgs a with
+         | some p, some a =>
+           (match sendRecv p a with
+            | .returned r => s!"returned {showReply r}"
+            | .wrapped (some m) => s!"wrapped {m}"
+            | .wrapped none => "wrapped -"
+            | .blocked => "blocked")
+         | _, _ => "bad-op")
+      | _ => "bad-op")
+  | ["outgoing", e] =>
+    (st, match (match e with
+        | "eof" => some SendExc.eof | "reset" => some .connectionReset
+        | "brokenpipe" => some .brokenPipe | "oserror" => some .otherOSError
+        | "nonoserror" => some .nonOSError | _ => none) with
+      | some x =>
+        let (alive, s') := outgoingStep st.srv 0 (.failed x)
+        s!"{alive} {if showSrv s' == showSrv st.srv then "same" else "changed"}"
+      | none => "bad-op")
   | "predrain" :: ms =>
     (st, match parseCMsgs ms with | some l => showPreOut (preDrain l) | none => "bad-op")
   | "recv" :: ms =>
